@@ -62,6 +62,11 @@ GLUE = [
     "SELECT a FROM t -- c\nWHERE a = 1\n",
     "SELECT CAST(a AS INT) -- c\n:: TEXT FROM t\n",
     "SELECT a. -- c\n b FROM t AS a\n",
+    # self-referencing / mutually shadowing CTEs (rules that resolve sources recursively)
+    "WITH c AS (SELECT * FROM c) SELECT * FROM c\n",
+    "WITH c AS (SELECT t.* FROM c AS t) SELECT t.* FROM c AS t UNION SELECT 1\n",
+    "WITH a AS (SELECT * FROM b), b AS (SELECT * FROM a) SELECT * FROM a\n",
+    "CREATE TABLE t (a INT COMMENT 'a long long long long long long long long long long long long long comment', b INT) -- note\n",
 ]
 
 
